@@ -20,6 +20,7 @@ import MW.Lemmas.RemoveReach2
 import MW.Lemmas.RemoveMidCex
 import MW.Lemmas.RemoveInterleave2Ex
 import MW.Lemmas.RemoveInterleave3Ex
+import MW.Lemmas.RemoveInterleave4Ex
 import MW.Lemmas.RemoveJoinEx
 import MW.Lemmas.RemoveFlaggedEx
 import MW.Lemmas.RemoveSimEx
@@ -772,7 +773,7 @@ section Round5
 open MW.Spec.Chain MW.Spec.Books MW.Spec.Pending MW.Lemmas.Ledger MW.Lemmas.RemoveProj MW.Lemmas.RemoveInv MW.Lemmas.RemoveChar
   MW.Lemmas.RemoveUpper MW.Lemmas.RemoveJoin MW.Lemmas.RemoveFlagged MW.Lemmas.RemoveInterleave MW.Lemmas.RemoveGlue
   MW.Lemmas.RemoveSim MW.Lemmas.ImportJoin MW.Lemmas.PendHist MW.Lemmas.PendHist.Cred MW.Lemmas.PendHist.CredRb
-  MW.Lemmas.LedgerPending
+  MW.Lemmas.LedgerPending MW.Lemmas.RemovePend
 
 /-- **credits_nodup_follower** — the hypothesis `KeysNodup s.credits` of `remove_projects` is an invariant of the follower:
     along every C01 history (node events, handler steps: extensions, reorganisations, unconfirmed transactions) the keys
@@ -919,6 +920,48 @@ theorem remove_interleaved_ext {limit : Nat} {c : Ctx} {w : Wid} {addrs : List A
     (hrun : irun limit c w addrs x0 evs = some x) (hfin : x.fin = true) (hws : ∀ y ∈ ws', y ∈ c.wallets) :
     Inv { c with own := own', wallets := ws', node := x.node } x.s x.node.chain :=
   MW.Lemmas.RemoveInterleave.remove_interleaved_ext hP hS hD hrun hfin hws
+
+/-- **remove_interleaved_extensions.**  Histories whose block events are all tip EXTENSIONS (domain `DomE`: a delivered
+    unconfirmed transaction is not on the followed chain and an id already pending denotes the same transaction; a
+    notification announces a valid well-formed chain of known blocks that extends the stored one, ids of the block's
+    transactions distinct, a block transaction with a pending id IS the pending one; a restart keeps the best block;
+    NOTHING is asked at a removal step): from the start invariant `Phase1` and the pending-side invariant `PCI` (an unmined
+    credit of another wallet belongs to a pending transaction at an output paying a managed address, none belongs to a
+    chain transaction — `MW.Lemmas.RemovePend`), the finishing step leaves C01's invariant for the table without `w`. -/
+theorem remove_interleaved_extensions {limit : Nat} {c : Ctx} {w : Wid} {addrs : List Addr} {own' : Own} {G : Block}
+    {x0 x : ISt} {evs : List IEv} {ws' : List Wid}
+    (hP : Phase1 c w G x0) (hS : Static c w addrs own') (hPCI : PCI c addrs x0.s x0.node.chain)
+    (hD : DomE limit c w addrs G x0 evs) (hrun : irun limit c w addrs x0 evs = some x) (hfin : x.fin = true)
+    (hws : ∀ y ∈ ws', y ∈ c.wallets) :
+    Inv { c with own := own', wallets := ws', node := x.node } x.s x.node.chain :=
+  MW.Lemmas.RemoveInterleave.remove_interleaved_extensions hP hS hPCI hD hrun hfin hws
+
+/-- **remove_interleaved_reachable.**  END TO END: a C09 history inside the domain of `pending_refines` (`HOKf`) from a
+    world satisfying C09's invariant with distinct keys in the credit and pending-credit buckets (the fresh wallet)
+    ends in a world `W` in sync with its node; RemoveWallet is accepted there for a ready wallet `w` while another wallet
+    stays ready; then ANY interleaving of removal steps, new blocks, unconfirmed transactions and restarts inside `DomE`
+    that ends with the finishing step leaves C01's invariant for the table without `w` — so every later block,
+    reorganisation and query is C01's theorem for the remaining keystores.  (C09's invariant carries no chain facts: the
+    well-formedness of `W`'s chain is asked for.) -/
+theorem remove_interleaved_reachable {rank : TxId → Nat} {E : HEnv} (evs0 : List HEv) (w0 : HW) (H0 : HInvC rank E w0)
+    (hn0 : KeysNodup w0.s.credits) (hp0 : KeysNodup w0.s.pendCred)
+    (hD0 : ∀ x ∈ worldsH E w0 evs0, HOKf rank E x.1 x.2)
+    (W : HW) (hW : W = runH E w0 evs0) (hsync : W.node.chain = W.sp.chain)
+    {G : Block} (hgood : GoodChain W.sp.chain) (hvalid : ChainValid E.own W.sp.chain) (hgen : W.sp.chain[0]? = some G)
+    (hknown : ∀ y ∈ W.sp.chain, AMap.get W.node.known y.id = some y)
+    {q : Nat} {ks : List Wid} {po : Bool} {w : Wid} (hgate : (removeWallet q ks po W.s w).1 = .ok)
+    (hrw : (readyWallets W.s E.wallets).contains w = true)
+    (hother : ∃ w', w' ≠ w ∧ (readyWallets W.s E.wallets).contains w' = true)
+    {addrs : List Addr} {own' : Own} (hS : Static (E.ctx W.node) w addrs own')
+    {v : Vol} (hv : v.best = tipMeta W.sp.chain)
+    {limit : Nat} {evs : List IEv} {x : ISt} {ws' : List Wid}
+    (hD : DomE limit (E.ctx W.node) w addrs G { s := (removeWallet q ks po W.s w).2, v := v, node := W.node } evs)
+    (hrun : irun limit (E.ctx W.node) w addrs { s := (removeWallet q ks po W.s w).2, v := v, node := W.node } evs =
+      some x)
+    (hfin : x.fin = true) (hws : ∀ y ∈ ws', y ∈ E.wallets) :
+    Inv { (E.ctx W.node) with own := own', wallets := ws', node := x.node } x.s x.node.chain :=
+  MW.Lemmas.RemoveInterleave.remove_interleaved_reachable evs0 w0 H0 hn0 hp0 hD0 W hW hsync hgood hvalid hgen hknown hgate
+    hrw hother hS hv hD hrun hfin hws
 
 /-- **remove_connect_simulation** — the structural heart of the extension step, for ARBITRARY stores: if `filterBlock`
     succeeds on a store `g`, it succeeds with the same confirmed ids on every store `s` that is `g` minus records of
